@@ -30,11 +30,11 @@ C16_BOUNDED = [H + 'cat::v_concat_heap_receiver', H + 'cat::v_concat_inline_heap
 
 COMMON_ASSUMPTIONS = [
     'Verus 0.2026.09.13, its bundled Z3 and rustc 1.98.1 are correct',
-    'transformations T1-T11 of tools/extract.py preserve behaviour (T3 is the language definition of `for`; T8 binds a '
+    'transformations T1-T12 of tools/extract.py preserve behaviour (T3 is the language definition of `for`; T8 binds a '
     'closure parameter pattern with a `let` inside the closure body and names wildcard parameters; T2 drops trace!/debug! '
     'logging statements only; T7 names the return value; T9 turns format! into an uninterpreted function of its literal and '
     'arguments and anyhow! into an opaque error (message text not modelled); T10 writes `&a - &b` as the Sub::sub call it '
-    'stands for; T11 emits the methods of `impl Debug/Display for Sodg` as inherent methods); provenance check enforced every run; the dropped text is listed in each unit\'s meta.json',
+    'stands for; T11 emits the methods of `impl Debug/Display for Sodg` as inherent methods; T12 writes a `for_each` statement as the `for` loop it is defined to be); provenance check enforced every run; the dropped text is listed in each unit\'s meta.json',
     'a callee taken "by contract only" (external_body with the contract spliced from the owning unit\'s overlay) is proved in '
     'the owning unit',
     'machine arithmetic is NOT idealised: usize operations in exec code carry overflow obligations',
@@ -294,12 +294,13 @@ PROPS = {
         extra=dict(units=['U_ops', 'U_model', 'U_slice'], classify=classify_config_sensitive(SENSITIVE_SIZE + SENSITIVE_NONDET))),
 
     'C20': dict(
-        units=['U_debug', 'U_display', 'U_hex'], level='proof',
-        technique='contract-based deductive verification (Verus) of the real Debug::fmt, Display::fmt and v_print() of '
-                  'src/debug.rs - PARTIAL: the text written is a function of the abstract graph (one line per present vertex '
-                  'in ascending id order with its id, one attribute per edge with label and target, its data iff it has data; '
-                  'v_print: id, data marker iff data, exactly the labels); format!/join/Formatter by trusted contracts. '
-                  'inspect() (a third of the property) is out of reach and NOT decided',
+        units=['U_debug', 'U_display', 'U_inspect', 'U_hex'], level='proof',
+        technique='contract-based deductive verification (Verus) of the real Debug::fmt, Display::fmt, v_print() of src/debug.rs '
+                  'and inspect()/inspect_v() of src/inspect.rs: the text Debug/v_print write is a function of the abstract '
+                  'graph (one line per present vertex in ascending id order with its id, one attribute per edge with label '
+                  'and target, its data iff it has data; v_print: id, data marker iff data, exactly the labels); inspect_v() '
+                  'terminates on every graph (measure: ids not yet seen) and returns one line per edge of every vertex it '
+                  'expands, each at most once; format!/join/Formatter/HashSet by trusted contracts',
         level_text='Unbounded proof on the extracted real Debug::fmt (T11: emitted as an inherent method, the graph invariant '
                    'is its precondition), Display::fmt (T11 too; what '
                    'std\'s `impl Debug for &T` forwards to is a trusted contract) and v_print(): when Debug::fmt returns Ok, '
@@ -308,15 +309,20 @@ PROPS = {
                    'format!(literal, label, target) per edge in stored order followed by the Display text of the data iff the '
                    'vertex has data; the group lines that follow are left open. Display writes what Debug writes. v_print(v) '
                    'returns format!(literal, v, marker-iff-data, join(labels, ", ")) with exactly v\'s labels in stored order. '
-                   'Both loops of Debug::fmt terminate. Lemmas: one line per present vertex and none for an absent id; one '
-                   'attribute per edge plus one iff data.',
-        level_note='PARTIAL: inspect()/inspect_v() - "terminates on every graph, cyclic or not, and lists every edge of every '
-                   'reachable vertex exactly once" - is NOT decided: inspect_v() recurses inside a `for_each` closure that '
-                   'captures `&mut seen` and `&mut lines` (Verus has no closures capturing mutable state; Kani cannot hold a '
-                   'Sodg). Trusted: Verus/Z3; format! as an uninterpreted function of its literal and of the Display texts of '
-                   'its arguments (T9; format!("{}", x) is the Display text of x), <[String]>::join as an uninterpreted '
-                   'function of parts and separator, Formatter::write_str appends, Display of Hex is print() (proved a '
-                   'function of the bytes in U_hex), std `impl Debug for &T` forwards to T. NOT decided: the concrete characters.',
+                   'inspect_v(v, seen) (T12: its two `for_each` statements, whose closures capture `&mut seen` / `&mut lines`, '
+                   'become loops): the recursion terminates on EVERY graph, cyclic or not (decreases: capacity minus the '
+                   'number of ids seen; `seen` only grows and holds ids below the capacity), returns Ok, and the number of '
+                   'lines it returns is the number of edges of the vertices it expanded - v and every id it newly put into '
+                   '`seen` - i.e. every edge of an expanded vertex is listed exactly once and no vertex is expanded twice. '
+                   'Every loop terminates.',
+        level_note='PARTIAL in two respects. (1) inspect(): that the expanded vertices are exactly those reachable from v is '
+                   'not drawn (soundness and closure of `seen` under edges are not part of the contract yet), nor the text of '
+                   'each line; (2) the characters of every output (format! is an uninterpreted function of its literal and of '
+                   'the Display texts of its arguments, T9; format!("{}", x) is the Display text of x). Trusted: Verus/Z3; '
+                   '<[String]>::join as an uninterpreted function of parts and separator, Formatter::write_str appends, '
+                   'Display of Hex is print() (proved a function of the bytes in U_hex), std `impl Debug for &T` forwards to T, '
+                   'std HashSet<usize> (insert/contains over a ghost set), itertools sorted() on the edge iterator (a '
+                   'permutation in key order).',
         design_ref='DESIGN.md §4 C20',
         trusted_base=GRAPH_TRUSTED + [
             'std `map(f).collect::<Vec<_>>()` on micromap::Iter / microstack::IntoIter (inherent shim methods: f(item) for every '
@@ -327,15 +333,20 @@ PROPS = {
             'text of x; Display text of usize / Label / Hex: dec_text / label_text / hex_text (uninterpreted)',
             '<[String]>::join(&str): joined(texts, separator), uninterpreted; Formatter::write_str appends its argument',
             'U_display: `impl Debug for &T` forwards to T\'s Debug::fmt (assume_specification + axiom_dbg_sodg: for Sodg<N> '
-            'that is the contract proved in U_debug); axiom_fmt_req_sodg (vstd\'s marker that formatting a Sodg has no precondition)'],
+            'that is the contract proved in U_debug); axiom_fmt_req_sodg (vstd\'s marker that formatting a Sodg has no precondition)',
+            'U_inspect: std HashSet<usize>::new/insert/contains over a ghost Set; itertools sorted() on micromap::Iter (the pairs '
+            'in key order: a permutation of the stored pairs); T12: `it.for_each(|x| body);` is `for x in it { body }`'],
         explanation='debug-lists-exactly-the-present-vertices-with-their-edges-and-data (postcondition), the loop obligations '
                     '(one-line-per-present-vertex-in-id-order, vertex-line-carries-id-edges-and-data, group-lines-come-after, '
                     'termination of both loops), display-writes-what-debug-writes, '
-                    'v_print-shows-the-marker-iff-data-and-exactly-the-labels; lemmas L20-*.',
-        not_covered=['inspect() / inspect_v(): termination on cyclic graphs and "every edge of every reachable vertex exactly once"',
+                    'v_print-shows-the-marker-iff-data-and-exactly-the-labels; inspect-terminates-on-any-graph, '
+                    'inspect-one-line-per-edge-of-every-vertex-expanded-once, inspect-vertex-is-marked-seen-before-its-edges-'
+                    'are-walked, inspect-edge-loop, inspect-copy-loop; lemmas L20-*.',
+        not_covered=['inspect(): that the vertices expanded are exactly the ones reachable from v; the text of each line',
                      'the group lines (b..: {..}) of Debug: only that they come after the vertex lines',
                      'the characters of the output (what format! does with its literal)'],
-        assumptions=['the graph is well-formed (wf); v_print: v below the capacity'],
+        assumptions=['the graph is well-formed (wf); v_print / inspect: v below the capacity; inspect: edge targets are ids '
+                     'below the capacity (an invariant of every history: lemmas L13)'],
     ),
     'C11': dict(
         units=['U_mergelog', 'U_ops'], level='proof',
